@@ -276,6 +276,16 @@ func runC14SioLoop(c *sim.Ctx, t *testing.T) {
 		for _, id := range md.echo {
 			wantBatches = append(wantBatches, ref.Canon([]interface{}{map[string]interface{}{"id": "echo-" + id, "to": "nobody"}}))
 		}
+		if echo && c.Bool("toecho") {
+			// a message for the stateless machine alone: its result carries an emission and no change
+			m2 := map[string]interface{}{"id": g.id(), "to": vfEchoMid}
+			msgs = append(msgs, m2)
+			md2 := vfPredict(m2, present, recorders, poisoned)
+			for _, id := range md2.echo {
+				wantBatches = append(wantBatches, ref.Canon([]interface{}{map[string]interface{}{"id": "echo-" + id, "to": "nobody"}}))
+			}
+			c.Count("messages_for_the_stateless_emitter_alone")
+		}
 	}
 	got := map[string][]string{}
 	var gotBatches []string
